@@ -370,7 +370,9 @@ func renderFamily(r *rng, nRandom int, seedBase uint64) []namedSched {
 	for i := 0; i < nRandom; i++ {
 		fam = append(fam, namedSched{fmt.Sprintf("random-%d", i), simrt.Config{
 			Seed: seedBase + uint64(i)*0x9e3779b97f4a7c15 + r.next(), Generative: true,
-			MapDen: []uint32{5, 5, 8}[r.intn(3)], MapKinds: 0b11110}})
+			MapDen: []uint32{5, 5, 8}[r.intn(3)], MapKinds: 0b11110,
+			// ambient faults: only matter if the printer reads a clock or the environment
+			ClockDen: []uint32{0, 2, 5}[r.intn(3)], ClockKinds: 0b11110}})
 	}
 	return fam
 }
